@@ -190,7 +190,7 @@ var soupFrags = []string{
 	" ...", " ...[0]", " ...[7]", " 1", " -1", " +1", " 0", " 255", " 256", " 0xFF", " 0b101", " 0o17", " 017", " 1.5", " -2e3", " 1e400", " .5",
 	" 9223372036854775807", " 9223372036854775808", " -9223372036854775808", " 18446744073709551615", " 18446744073709551616", " 12345678901234567890123",
 	" // comment", " // c \r\n", "//x\n", " 1_0", " 0x", " 1e", " +", " -", " 0b2", " 42abc", " 0b102", " 0o78", " 0x1G", " 1.5.5", " . .", " . . .", " ..", " <A 321>", " <A 256>", "é", "\u2003", "\u00a0", "\u0085", "\v", "\f", "\xff", "\xc3",
-	" \"é\"", " \"\xff\"", " \"unclosed", " \"line\nbreak\"", " \"\nx\"", " [", " [x]", " ]", " @", " #", " W<", " S1F1<", "<L<A \"x\">>", "<L v ... >",
+	" \"é\"", " \"\xff\"", " \u017f1f1", " \"a\\\" \"b\"", " \"100%\"", " \"unclosed", " \"line\nbreak\"", " \"\nx\"", " [", " [x]", " ]", " @", " #", " W<", " S1F1<", "<L<A \"x\">>", "<L v ... >",
 }
 
 func (g *Gen) soup(n int) string {
@@ -238,7 +238,7 @@ var intLits = []string{"0", "1", "-1", "+1", "127", "128", "-128", "-129", "255"
 	"0x10000", "0xFFFFFFFF", "0x100000000", "0x7FFFFFFFFFFFFFFF", "0x8000000000000000", "0xFFFFFFFFFFFFFFFF", "0x10000000000000000", "-0x80", "-0x81",
 	"0b1111111", "0B10000000", "0b11111111", "0b100000000", "0o177", "0O200", "0o377", "0o400", "017", "010", "08", "-0", "+0", "00",
 	"0b102", "0b12", "0B1012", "0o78", "0O178", "-0b1019", "0x1G", "0xfg", "1_0", "256", "321", "511", "0x141", "0b100000001"}
-var floatLits = []string{"0", "1", "-1", "1.5", "-2.25", ".5", "5.", "1e3", "1E-3", "-1.5e+2", "3.4028235e38", "3.4028236e38", "1e39", "-1e39", "1e-46",
+var floatLits = []string{"7.038531e-26", "1.00000005960464478", "3.4028235677973366e38", "1.0000000596046448", "0.1000000014901161", "8.5070591730234616e37", "1.17549435082228751e-38", "0", "1", "-1", "1.5", "-2.25", ".5", "5.", "1e3", "1E-3", "-1.5e+2", "3.4028235e38", "3.4028236e38", "1e39", "-1e39", "1e-46",
 	"1.7976931348623157e308", "1.8e308", "1e400", "4.9e-324", "1e-400", "0.1", "16777217", "0x10", "0b1", "1e", "1.e2", "+.5e1"}
 
 func (g *Gen) plausibleItem(depth int) string {
